@@ -91,7 +91,18 @@ def document(setup, collision, seq, nested, clip, ids):
     return f'<svg {NS} viewBox="0 0 100 100"><defs>{defs}</defs>{body}</svg>'
 
 
-URL = re.compile(r"url\(\s*#([^)\s]+)\s*\)")
+URL = re.compile(r"""url\(\s*['"]?#([^)\s'"]+)['"]?\s*\)""")
+
+# other legal spellings of the same reference: ids with characters beyond [A-Za-z0-9_-], quoted / padded url()
+SPELL_IDS = ["g.1", "a:b", "\u00dcn\u00ef-\u00f6", "_"]
+SPELL_URLS = ["url(#{})", "url('#{}')", "url(&quot;#{}&quot;)", "url( #{} )"]
+
+
+def respell(doc, gid, hid, urlstyle):
+    """rename gradient g (and h) and rewrite every url() that points at them in the given style"""
+    for old, new in (("g", gid), ("h", hid)):
+        doc = doc.replace(f'id="{old}"', f'id="{new}"').replace(f'xlink:href="#{old}"', f'xlink:href="#{new}"').replace(f"url(#{old})", urlstyle.format(new))
+    return doc
 
 
 def reference_graph(out):
@@ -152,7 +163,44 @@ def judge(doc, drop=False):
     return "returned", why, out, (len(grads), len(ids))
 
 
+def evaluate_spelled(case):
+    setup = case["setup"]
+    targets = ["g", "h"] if setup != "g" else ["g"]
+    kinds = ["vis", "xf", "op0", "stroked", "gstroke", "use2"]
+    outs = collections.Counter()
+    nts = set()
+    viols = []
+    n = 0
+    for L in (1, 2):
+        for seq in itertools.product([(k, t) for k in kinds for t in targets], repeat=L):
+            if L == 2 and seq[0][0] not in ("vis", "xf"):
+                continue
+            base = document(setup, "none", seq, False, case["clip"], "")
+            doc = respell(base, case["gid"], case["gid"] + "h", case["url"])
+            n += 1
+            o, why, out, stats = judge(doc, False)
+            outs["spelled/" + o] += 1
+            if o != "returned":
+                if len(viols) < 8:
+                    viols.append({"sig": {"kind": "raised", "type": o, "fam": "spelled"}, "case": {"fam": "doc", "doc": doc, "drop": False}, "detail": {"why": f"conversion of a reference-complete document failed: {out}"}})
+                continue
+            nts.add(core.h64(doc))
+            if why and len(viols) < 8:
+                viols.append({"sig": {"kind": why[0][0], "fam": "spelled", "kinds": sorted({w[0] for w in why})}, "case": {"fam": "doc", "doc": doc, "drop": False}, "detail": {"why": "; ".join(w[1] for w in why), "output": out[:2500]}})
+    return {"n": n, "outs": outs, "nts": nts, "viol": viols, "sample": None}
+
+
+def spelled_cases(tier):
+    for setup in SETUPS if tier == "thorough" else ["g", "h->g"]:
+        for gid in SPELL_IDS:
+            for url in SPELL_URLS:
+                for clip in (False, True) if tier == "thorough" else (False,):
+                    yield {"fam": "spelled", "setup": setup, "gid": gid, "url": url, "clip": clip}
+
+
 def evaluate(case):
+    if case.get("fam") == "spelled":
+        return evaluate_spelled(case)
     setup, collision, nested, clip, ids = case["setup"], case["collision"], case["nested"], case["clip"], case["ids"]
     drop = bool(case.get("drop"))
     kinds = list(REFERRERS) if not drop else ["vis", "xf", "op0", "use2"] + list(DROP_REFERRERS)
@@ -225,11 +273,11 @@ def run(run):
     run.rule = (
         "E2: gradient setups " + repr(SETUPS) + " x pre-existing colliding ids " + repr(COLLISIONS) + " x every referrer sequence of length <= "
         + ("2" if run.tier == "quick" else "3") + " over " + repr(list(REFERRERS)) + " x target gradient x +-nested svg (with pre-existing nested-svg-viewport-0 id) "
-        "x +-clipPath x +-ids on the referrers; all sources reference-complete. Oracle: ids unique, every url(#x) resolves to a gradient in defs, every "
+        "x +-clipPath x +-ids on the referrers; the same references spelled differently (gradient ids " + repr(SPELL_IDS) + " x url styles plain / single-quoted / double-quoted / padded) x referrer sequences <= 2; all sources reference-complete. Oracle: ids unique, every url(#x) resolves to a gradient in defs, every "
         "gradient in defs referenced by a path, no href. Non-trivial = output has >= 1 gradient or the source had ids that must be dropped/renamed."
     )
     run.floor_nt = 500
-    run.run_cases(MOD, itertools.chain(cases(run.tier, run.seed), drop_cases(run.tier)), chunk=1)
+    run.run_cases(MOD, itertools.chain(spelled_cases(run.tier), cases(run.tier, run.seed), drop_cases(run.tier)), chunk=1)
 
 
 def replay(case):
